@@ -108,10 +108,10 @@ class TableEnv(AbstractEnv):
         return self.ITrunc[state.s]
 
     def state_info(self, state):
-        return {}
+        return {"s": state.s}
 
     def transition_info(self, state, action, next_state):
-        return {}
+        return {"idx": self.base_idx(action), "s": state.s, "s2": next_state.s}
 
     def default_renderer(self):
         raise NotImplementedError
@@ -328,6 +328,24 @@ def obs_code(cfg_okind_outer: str, obs) -> int:
     if cfg_okind_outer == "disc":
         return int(np.asarray(obs))
     return q4(obs)
+
+
+def make_state(env, cfg: dict, s: int, cnt: list):
+    """A wrapped state object with table state s (1-based) and the given counters (innermost first)."""
+    st = env.initial(key=jr.key(0))
+    depth = len(cfg["stack"])
+
+    def inner(x, hops):
+        for _ in range(hops):
+            x = x.env_state
+        return x
+
+    st = eqx.tree_at(lambda x: inner(x, depth).s, st, jnp.asarray(s - 1, dtype=jnp.int32))
+    for i, w in enumerate(cfg["stack"]):
+        if w["kind"] == "TimeLimit":
+            hops = depth - 1 - i
+            st = eqx.tree_at(lambda x, hops=hops: inner(x, hops).step_count, st, jnp.asarray(cnt[i], dtype=jnp.int32))
+    return st
 
 
 # ------------------------------------------------------------------------------------------------
